@@ -1267,3 +1267,40 @@ m('N2-accessors-skip-leafless-subtrees', 'C04', 'N2', 'AccessorsImpl/returns-aft
     if (root.num_leaves == 0) [[unlikely]] {
         return pos - cur;
     }""")
+m('G9-python-lookup-memo-dropped-by-one-key', 'C12', 'G9', 'registry/no-stale-memo', 'optree/registry.py',
+  """__REGISTRY_LOCK: Lock = Lock()
+""",
+  """__REGISTRY_LOCK: Lock = Lock()
+_GET_MEMO: dict = {}
+""",
+  more=[("""    handler = _NODETYPE_REGISTRY.get(cls)
+    if handler is not None:
+        return handler
+    if is_structseq_class(cls):""",
+         """    handler = _GET_MEMO.get((namespace, cls)) or _NODETYPE_REGISTRY.get(cls)
+    if handler is not None:
+        _GET_MEMO[namespace, cls] = handler
+        return handler
+    if is_structseq_class(cls):"""),
+        ("""        _C.unregister_node(cls, namespace)
+        return _NODETYPE_REGISTRY.pop(registration_key)""",
+         """        _C.unregister_node(cls, namespace)
+        _GET_MEMO.pop((namespace, cls), None)
+        return _NODETYPE_REGISTRY.pop(registration_key)""")])
+m('G9-engine-lookup-remembers-the-global-answer', 'C12', 'G9', 'PyTreeTypeRegistry::Lookup/reads-only', 'src/registry.cpp',
+  """    const auto it = registry->m_registrations.find(cls);
+    return it != registry->m_registrations.end() ? it->second : nullptr;""",
+  """    const auto it = registry->m_registrations.find(cls);
+    if (it != registry->m_registrations.end() && !registry_namespace.empty()) {
+        registry->m_named_registrations.emplace(std::make_pair(registry_namespace, cls), it->second);
+    }
+    return it != registry->m_registrations.end() ? it->second : nullptr;""")
+m('A8-transform-takes-over-the-callbacks-treespec', 'C14', 'A8', 'PyTreeSpec::Transform/move', 'src/treespec/treespec.cpp',
+  """        return std::make_unique<PyTreeSpec>(thread_safe_cast<PyTreeSpec&>(out));""",
+  """        return std::make_unique<PyTreeSpec>(std::move(thread_safe_cast<PyTreeSpec&>(out)));""")
+m('A8-compose-takes-over-the-inner-treespec', 'C14', 'A8', 'PyTreeSpec::Compose/move', 'src/treespec/treespec.cpp',
+  """std::unique_ptr<PyTreeSpec> PyTreeSpec::Compose(const PyTreeSpec& inner_treespec) const {""",
+  """std::unique_ptr<PyTreeSpec> PyTreeSpec::Compose(const PyTreeSpec& inner_treespec) const {
+    auto& inner_writable = const_cast<PyTreeSpec&>(inner_treespec);
+    const std::vector<Node> taken{std::move(inner_writable.m_traversal)};
+    inner_writable.m_traversal = taken;""")
